@@ -62,7 +62,8 @@ where
     }
 
     let source = self.source.clone();
-    let subject = self.subject.clone();
+    // (a hook-less handle: this closure is stored in the subject's own hook)
+    let subject = self.subject.sink();
     let connection = Arc::clone(&self.connection);
 
     self.subject.set_on_subscribe(move |count| {
